@@ -52,9 +52,11 @@ theorem expired_iff (m : C05.M) : C05.expired m = true ↔ ∃ t ∈ m.tms, t.de
   · rintro ⟨t, ht, h⟩; exact ⟨t, ht, by simpa using h⟩
 
 theorem ceilMs_nonneg (us : Nat) : 0 ≤ C05.ceilMs us := by
-  unfold C05.ceilMs C05.INT_MAX; split <;> omega
+  unfold C05.ceilMs; omega
 
 theorem ceilMs_zero : C05.ceilMs 0 = 0 := by decide
+
+theorem satMs_zero : satMs 0 = 0 := by decide
 
 theorem checkPoll_ok (m : C05.M) (t : Int) (h1 : ¬ t < -1) (h2 : (decide (t ≠ 0) && C05.runnable m) = false)
     (h3 : ∀ d, C05.minDeadline m.tms = some d → ¬ t = -1 ∧ ¬ t > C05.ceilMs (d - m.clock)) :
@@ -91,7 +93,8 @@ theorem checkPoll_first {C : TQContract} {m : C05.M} {s : State} (r : Rel C m s)
     rw [selectTimeout_timerDiff s.clock dl]
     have hmem : (⟨id, us, dl⟩ : C05.Tm) ∈ m.tms := (r.tm.iff id us dl).mpr hv
     have hall : ∀ t ∈ m.tms, dl ≤ t.deadline := fun t ht => hmin t.id t.usec t.deadline ((r.tm.iff _ _ _).mp ht)
-    have hnn := ceilMs_nonneg (dl - s.clock)
+    have hnn := satMs_nonneg (dl - s.clock)
+    have hle := satMs_le (dl - s.clock)
     apply checkPoll_ok
     · omega
     · cases hrn : C05.runnable m with
@@ -101,7 +104,7 @@ theorem checkPoll_first {C : TQContract} {m : C05.M} {s : State} (r : Rel C m s)
         obtain ⟨t', ht', hexp⟩ := (expired_iff m).mp hrn
         have := hall t' ht'
         have hz : dl - s.clock = 0 := by rw [r.clock] at hexp; omega
-        rw [hz, ceilMs_zero]; simp
+        rw [hz, satMs_zero]; simp
     · intro d hd
       obtain ⟨⟨t, ht, htd⟩, hle⟩ := minDeadline_spec m.tms d hd
       have hdd : d = dl := by
@@ -523,7 +526,8 @@ theorem checkPoll_inv {m : C05.M} {t : Int} (h : C05.checkPoll m t = .ok ()) :
 
 /-- after an EINTR during which `adv` µs passed, the timeout of the next poll passes the monitor's
     check again: an infinite wait and a zero timeout are repeated, a finite wait is cut down to what
-    is left — 0 as soon as a timer has expired, never beyond `ceilMs` of the time to the earliest deadline -/
+    is left — 0 as soon as a timer has expired, never beyond `ceilMs` of the time to the earliest deadline
+    (`timeLeft` = `satMs` of what is left of the wait ≤ `ceilMs` of it ≤ `ceilMs` of the time to any deadline) -/
 theorem checkPoll_eintr {m : C05.M} {timeout : Int} {wait : Option ((Int × Int) × Nat)} (adv : Nat)
     (hc : C05.checkPoll m timeout = .ok ()) (hw : WaitOk m timeout wait) :
     C05.checkPoll { m with clock := m.clock + adv } (nextTimeout wait timeout (m.clock + adv)) = .ok () ∧
@@ -541,7 +545,8 @@ theorem checkPoll_eintr {m : C05.M} {timeout : Int} {wait : Option ((Int × Int)
       have hnt : nextTimeout (some (tv, tstart)) timeout (m.clock + adv) = timeLeft tv tstart (m.clock + adv) := by
         simp only [nextTimeout, hpos, if_true]
       rw [hnt, timeLeft_eq tv tstart (m.clock + adv) (tv.1 * 1000000 + tv.2).toNat w2 w3 (by omega)]
-      have hnn := ceilMs_nonneg (tstart + (tv.1 * 1000000 + tv.2).toNat - (m.clock + adv))
+      have hnn := satMs_nonneg (tstart + (tv.1 * 1000000 + tv.2).toNat - (m.clock + adv))
+      have hle := satMs_le (tstart + (tv.1 * 1000000 + tv.2).toNat - (m.clock + adv))
       refine ⟨?_, ⟨w1, w2, w3, w4, w5⟩, by omega, by omega⟩
       apply checkPoll_ok
       · omega
@@ -553,7 +558,7 @@ theorem checkPoll_eintr {m : C05.M} {timeout : Int} {wait : Option ((Int × Int)
           have := w5 t' ht'
           have hexp' : t'.deadline ≤ m.clock + adv := hexp
           have hz : tstart + (tv.1 * 1000000 + tv.2).toNat - (m.clock + adv) = 0 := by omega
-          rw [hz, ceilMs_zero]; simp
+          rw [hz, satMs_zero]; simp
       · intro d hd
         obtain ⟨⟨t, ht, htd⟩, _⟩ := minDeadline_spec m.tms d hd
         have := w5 t ht
@@ -608,7 +613,7 @@ theorem waitOk_first {C : TQContract} {m : C05.M} {s : State} (r : Rel C m s) (h
         apply Classical.byContradiction
         intro hn
         have : dl - s.clock = 0 := by omega
-        rw [this, ceilMs_zero] at hpos
+        rw [this, satMs_zero] at hpos
         omega
       refine ⟨d2, d3, d4, himm, ?_⟩
       intro t ht
